@@ -399,4 +399,81 @@ theorem init_inv (stores : Nat → Store) (h : ∀ s, StoreInv (stores s)) : WIn
   · intro m; simp [World.init]
   · intro m _; exact ⟨rfl, rfl⟩
 
+/-! ### remove_all_servers, exactly -/
+
+theorem removeServerW_eq {w : World} (hw : WInv w) {m : Nat} {id : Str} (hid : w.ids m = some id) (s : Nat)
+    (hr : w.reg m s = true) :
+    stepRemoveServerW w m s =
+      (updW w m s (purge id (w.store s)) ⟨none, none, none⟩ ((w.servers m).erase s), .done) := by
+  have hc := hw.idok m id hid
+  have hag := hw.agree m s id hid hr
+  unfold stepRemoveServerW
+  rw [hr, removeServer_exact (hw.stores s) hag hc]
+  simp only [Bool.false_or, Bool.not_true, Bool.false_eq_true, if_false]
+  rfl
+
+/-- remove_all_servers: every registered server is purged of exactly the manager's owned instances,
+    nothing else changes, no exception -/
+theorem removeAllLoop_exact {m : Nat} {id : Str} :
+    ∀ (l : List Nat) (w : World), WInv w → w.ids m = some id → l.Nodup → (∀ s ∈ l, s ∈ w.servers m) →
+      (removeAllLoop m w l).2 = .done ∧
+      (∀ s, (removeAllLoop m w l).1.store s = if s ∈ l then purge id (w.store s) else w.store s) ∧
+      (∀ s, s ∈ (removeAllLoop m w l).1.servers m ↔ (s ∈ w.servers m ∧ s ∉ l)) ∧
+      (∀ m', m' ≠ m → (removeAllLoop m w l).1.servers m' = w.servers m') ∧
+      (removeAllLoop m w l).1.ids = w.ids := by
+  intro l
+  induction l with
+  | nil => intro w _ _ _ _; simp [removeAllLoop]
+  | cons s rest ih =>
+    intro w hw hid hnd hsub
+    have hr : w.reg m s = true := by
+      simp [World.reg, List.contains_iff_mem, hsub s (by simp)]
+    have heq := removeServerW_eq hw hid s hr
+    have hinv := removeServerW_inv hw hid s
+    rw [heq] at hinv
+    simp only [removeAllLoop, heq]
+    simp only [List.nodup_cons] at hnd
+    obtain ⟨w1, hw1⟩ : ∃ w1, w1 = updW w m s (purge id (w.store s)) ⟨none, none, none⟩ ((w.servers m).erase s) :=
+      ⟨_, rfl⟩
+    rw [← hw1] at hinv ⊢
+    have hid1 : w1.ids m = some id := by rw [hw1]; exact hid
+    have hsrv1 : w1.servers m = (w.servers m).erase s := by simp [hw1, updW]
+    have hsub1 : ∀ x ∈ rest, x ∈ w1.servers m := by
+      intro x hx
+      rw [hsrv1, (hw.snodup m).mem_erase_iff]
+      exact ⟨fun e => hnd.1 (e ▸ hx), hsub x (by simp [hx])⟩
+    obtain ⟨h1, h2, h3, h4, h5⟩ := ih w1 hinv hid1 hnd.2 hsub1
+    refine ⟨h1, ?_, ?_, ?_, ?_⟩
+    · intro x
+      rw [h2 x]
+      by_cases ex : x = s
+      · subst ex
+        have : x ∉ rest := hnd.1
+        simp [this, hw1, updW, World.put]
+      · have hst : w1.store x = w.store x := by simp [hw1, updW, World.put, ex]
+        simp [ex, hst]
+    · intro x
+      rw [h3 x, hsrv1, (hw.snodup m).mem_erase_iff]
+      simp only [List.mem_cons, not_or]
+      constructor
+      · rintro ⟨⟨a, b⟩, c⟩; exact ⟨b, a, c⟩
+      · rintro ⟨b, a, c⟩; exact ⟨⟨a, b⟩, c⟩
+    · intro m' hm'
+      rw [h4 m' hm']
+      simp [hw1, updW, hm']
+    · rw [h5, hw1]; rfl
+
+theorem removeAll_exact {w : World} (hw : WInv w) {m : Nat} {id : Str} (hid : w.ids m = some id) :
+    (step w (.removeAll m)).2 = .done ∧
+    (∀ s, (step w (.removeAll m)).1.store s =
+        if s ∈ w.servers m then purge id (w.store s) else w.store s) ∧
+    (step w (.removeAll m)).1.servers m = [] ∧
+    (∀ m', m' ≠ m → (step w (.removeAll m)).1.servers m' = w.servers m') := by
+  simp only [step, hid]
+  obtain ⟨h1, h2, h3, h4, _⟩ := removeAllLoop_exact (w.servers m) w hw hid (hw.snodup m) (fun _ h => h)
+  refine ⟨h1, h2, ?_, h4⟩
+  apply List.eq_nil_iff_forall_not_mem.mpr
+  intro s hs
+  exact ((h3 s).mp hs).2 ((h3 s).mp hs).1
+
 end Proofs.SubMgr
